@@ -284,6 +284,33 @@ def run(prog, rep, tier='quick'):
                                 integral = all(sp.nsimplify(c_).is_integer for c_ in coeffs)
                             except Exception:
                                 integral = None
+                            if integral is not True and bi.free_symbols:
+                                # not an integer-coefficient polynomial: decide by exhibiting a position of the grid whose bin index is
+                                # not an integer (exact rational arithmetic on small sizes; the loop symbol ranges over the count)
+                                msym = [s_ for s_ in bi.free_symbols if s_.name == 'm']
+                                isym = [s_ for s_ in bi.free_symbols if s_.name != 'm']
+                                wit = None
+                                if len(isym) <= 1 and len(msym) <= 1:
+                                    for mv in range(2, 7):
+                                        cntv = int(want.subs({'m': Aff(mv)}).c) if want is not None else 0
+                                        for iv in range(0, cntv):
+                                            sub = {}
+                                            if msym:
+                                                sub[msym[0]] = mv
+                                            if isym:
+                                                sub[isym[0]] = iv
+                                            try:
+                                                val = sp.nsimplify(bi.subs(sub))
+                                            except Exception:
+                                                val = None
+                                            if val is not None and val.is_rational and not val.is_integer:
+                                                wit = (mv, iv, val)
+                                                break
+                                        if wit:
+                                            break
+                                if wit:
+                                    integral = False
+                                    bi = '%s -- e.g. position %d for m = %d is bin %s' % (bi, wit[1], wit[0], wit[2])
                             if integral is False:
                                 bad = bi
                             elif integral is None:
